@@ -17,6 +17,23 @@ PROPS = {
         text="Random programs of MutateRow/MutateRows over adversarial keys/timestamps/clock values on all three engines are compared with an independent reference model after every step (single-row reads of every touched key, periodic full scans, chunk-stream decoder). Exploration: finds counterexamples, does not prove absence.",
         note="Trusted: the reference model (internal/bt/model.go), the chunk decoder, direct service calls with wire round-trip standing in for gRPC.",
         units=[dict(pkg="bt", test="TestC01", quick=9000, thorough=240000)]),
+    "C13": dict(level="exploration", assumptions=A_BT,
+        technique="model-based property testing (rapid): generated prior states + ReadModifyWriteRow rule lists vs. arithmetic/append model; response and read-back compared",
+        text="Random histories of writes and ReadModifyWriteRow requests (repeated columns, extreme amounts, future cells, non-8-byte values, drawn clock, 3 engines) are compared with an independent model of the increment/append semantics: response cells, error/no-change on failing rules, and an unfiltered read-back after every step.",
+        note="Trusted: ApplyRMW in internal/bt/model.go (two's-complement big-endian arithmetic, timestamp = max(server ms, newest)); an increment on an existing empty value is accepted either way (text is silent).",
+        units=[dict(pkg="bt", test="TestC13", quick=9000, thorough=240000)]),
+    "C03": dict(level="exploration", assumptions=A_BT,
+        technique="bounded-exhaustive enumeration of RowSets over an adversarial key universe + rapid-generated tables/RowSets/limits, oracle = set-union definition and chunk-stream validity automaton",
+        text="Every RowSet with up to two ranges and one key over the 7-key universe named by the property (406 808 sets, x3 engines; whole space in thorough, a seed-selected 1/16 in quick) is read from a 13-row table and compared with the rows the definition selects; random larger tables/RowSets/limits/filters (multi-message results) and SampleRowKeys are checked the same way; the decoder enforces chunk-stream well-formedness.",
+        note="Trusted: membership by definition (bytes.Compare), the stream decoder. Empty ranges (start==end, one end open) are accepted as InvalidArgument or as contributing nothing. Empty keys/bounds are not generated.",
+        units=[dict(pkg="bt", test="TestC03Enum", kind="enum", quick=1, thorough=1, shards_quick=4, shards_thorough=16),
+               dict(pkg="bt", test="TestC03", quick=1600, thorough=40000)]),
+    "C05": dict(level="exploration", assumptions=A_BT,
+        technique="metamorphic property testing: grammar-generated filter trees + bounded-exhaustive leaf-basis compositions; oracle = independent filter evaluator (own regex matcher) applied to the emulator's unfiltered read",
+        text="Filter trees from a grammar (all supported leaves at boundary/invalid arguments, chain/interleave/condition nesting, <=2 sample nodes) are run on generated multi-row/family/version tables on three engines; the filtered read must equal an independent evaluator's output on the emulator's own unfiltered read; invalid arguments that are reached must give InvalidArgument; every leaf alone and all depth-2 compositions of a 26-leaf basis (18 954 filters) are enumerated (thorough: all; quick: 1/8).",
+        note="Trusted: EvalFilter/MatchFull (written from data.proto comments). Accepted either way: count 0; invalid node that no cell reaches; double labels and row limit/offset after an interleave over several families are treated as unspecified.",
+        units=[dict(pkg="bt", test="TestC05Enum", kind="enum", quick=1, thorough=1, shards_quick=4, shards_thorough=16),
+               dict(pkg="bt", test="TestC05", quick=4500, thorough=90000)]),
 }
 
 NOT_APPLICABLE = [dict(property_id=p, reason="check not built yet in this session (work in progress; see DESIGN.md §8 build order)") for p in ALL if p not in PROPS]
